@@ -241,7 +241,7 @@ Record sres (h : heap) (f : field) (old : slice) (content : option (list cell))
   sr_ext : hext h h' w;
   sr_wf : wf_slice h' f s';
   sr_rd : rdo h' s' = content;
-  sr_w : forall l i, In (l, i) w -> length h <= l \/ exists n c, old = SArr l n c /\ n <= i;
+  sr_w : forall l i, In (l, i) w -> length h <= l \/ exists n c, old = SArr l n c /\ n <= i < c;
   sr_shape : s' = old \/ fresh h s' \/ (exists l n n' c, old = SArr l n c /\ s' = SArr l n' c /\ n <= n')
 }.
 
